@@ -150,7 +150,11 @@ class Interp:
         if k in ('CallExpr', 'CXXMemberCallExpr', 'CXXOperatorCallExpr', 'CXXConstructExpr', 'CXXTemporaryObjectExpr'):
             return self.call_node(fn, n, env)
         if k == 'InitListExpr':
-            return [self.eval(fn, S[c], env) for c in n['c']]
+            vals = [self.eval(fn, S[c], env) for c in n['c']]
+            t = n.get('t', '')
+            if len(vals) == 1 and not any(x in t for x in ('vector', 'initializer_list', 'array', '[', 'set', 'map')):
+                return vals[0]
+            return vals
         if k == 'CXXDefaultArgExpr' or k == 'CXXDefaultInitExpr':
             if 'cv' in n:
                 return n['cv']
